@@ -345,7 +345,8 @@ func (check typecheck) arrayLitExpr(child []*node, typ *itype) error {
 			}
 			n = c.child[1]
 			index = int(vInt(c.child[0].rval))
-		case cat == arrayT && index >= length:
+		}
+		if cat == arrayT && index >= length {
 			return c.cfgErrorf("index %d is out of bounds (>= %d)", index, length)
 		}
 
